@@ -434,6 +434,13 @@ now has two POUs / types / globals of one name, which the compiler rejects. -/
 def xfileDup (P : Project) (d : Decl) (n : Name) : Bool :=
   d.scope == 0 && P.decls.any (fun c => c.scope == 0 && c.file != d.file && eqv c.name n)
 
+/-- The declaring scope already has the new name but the request came from another file, where
+`has_conflict` / `field_has_conflict` cannot see the symbol (imported symbol ids and type ids are
+unknown to the requesting file's single-file table): the rename is accepted and creates a duplicate
+declaration. -/
+def skippedConflict (P : Project) (reqFile : Nat) (d : Decl) (n : Name) : Bool :=
+  d.file != reqFile && conflict P d.file d n
+
 /-- indices of type-name occurrences whose plain scope lookup finds a non-type symbol (a variable
 named like the type): `resolve_type_symbol` falls back to the type table, the unused-symbol pass does not -/
 def typeShadowed (P : Project) : List Nat :=
